@@ -293,6 +293,19 @@ def r4_r5(tree, rep):
 
 
 def run(tree, rep, tier):
+    # R6: "data written before a local close is delivered before the peer sees connectionLost" rests on L4: every record (DATA, CLOSE)
+    # is in the retransmission queue before anything can go wrong with sending it - the rule instances are C10.R2
+    from .C10 import r2 as c10_r2
+    sub = type(rep)(rep.pid, rep.tier, rep.seed)
+    c10_r2(tree, sub)
+    for o in sub.obligations:
+        if o["rule"] == "C10.R2":
+            rep.obligations.append(dict(o, rule="C13.R6"))
+            rep.evaluations += 1
+    for v in sub.violations:
+        if v["rule"] == "C10.R2":
+            rep.violation("C13.R6", v["key"].replace("C10.R2", "C13.R6"), v["what"] + " (a DATA or CLOSE whose first transmission fails is "
+                          "never replayed: the peer sees connectionLost without the data, or never)", v.get("site"), v.get("detail"), _count=False)
     from .. import sharedstate
     sharedstate.check(tree, rep, "C13.R0")
     prog = Program(tree)
